@@ -697,3 +697,15 @@ impl Worker for W {
         res
     }
 }
+
+pub fn dbg_main() {
+    use gluon::query::*;
+    let vm = new_plain_vm();
+    let r = run_program(&vm, "e1", "let m = import! c15m0\nm.n\n");
+    println!("{:?}", r);
+    let db = vm.get_database();
+    let c: &dyn Compilation = &*db;
+    println!("module_text peek: {:?}", ModuleTextQuery.in_db(c).peek(&"c15m0".to_string()).map(|r| r.is_ok()));
+    println!("typechecked peek: {:?}", TypecheckedSourceModuleQuery.in_db(c).peek(&("c15m0".to_string(), None)).map(|r| r.is_ok()));
+    println!("import peek: {:?}", ImportQuery.in_db(c).peek(&"c15m0".to_string()).map(|r| r.is_ok()));
+}
